@@ -46,7 +46,7 @@ def run(chk, tier, seed):
             n += 1
             lines.append("l%d abi_ledger %d %s" % (n, fam["id"], ",".join(map(str, s))))
             meta["l%d" % n] = {"f": fam["id"], "seq": s, "n": n, "kind": "fam"}
-    bad_seqs = [["v0", "v0"], ["v0", "v1a"], ["v0", "v1b"], ["v0", "v1c"], ["v0", "v1d"], ["v1d", "v0"], ["v1a", "v0"], ["v1a", "v1a", "v1a"], ["v1c"], ["v0", "v1a", "v0"],
+    bad_seqs = [["v0", "v0"], ["v0", "v1a"], ["v0", "v1b"], ["v0", "v1c"], ["v0", "v1d"], ["v1d", "v0"], ["v1b", "v0"], ["v1a", "v0"], ["v1a", "v1a", "v1a"], ["v1c"], ["v0", "v1a", "v0"],
                 ["la", "la"], ["la", "lb"], ["la", "lc"], ["lc", "la"], ["la", "lc", "lb"], ["lb", "la"]]
     for s in bad_seqs:
         n += 1
@@ -83,7 +83,7 @@ def run(chk, tier, seed):
         else:
             ver = {"v0": 0}
             revs = "[" + ";".join("[" + ";".join(D.hexlit(bd["bd_%s_%d" % (a, v)]) for v in range(ver.get(a, 1) + 1)) + "]" for a in m["seq"]) + "]"
-            exp = {("v0", "v0"): [0, 0], ("v0", "v1a"): [0, 1], ("v0", "v1b"): [0, 1], ("v0", "v1c"): [0, 1], ("v0", "v1d"): [0, 1], ("v1d", "v0"): [0, 1], ("v1a", "v1a", "v1a"): [0, 0, 0], ("v1c",): [0],
+            exp = {("v0", "v0"): [0, 0], ("v0", "v1a"): [0, 1], ("v0", "v1b"): [0, 1], ("v0", "v1c"): [0, 1], ("v0", "v1d"): [0, 1], ("v1d", "v0"): [0, 1], ("v1b", "v0"): [0, 1], ("v1a", "v1a", "v1a"): [0, 0, 0], ("v1c",): [0],
                    ("la", "la"): [0, 0], ("la", "lb"): [0, 1], ("la", "lc"): [0, 0], ("lc", "la"): [0, 1], ("la", "lc", "lb"): [0, 0, 1], ("lb", "la"): [0, 1]}.get(tuple(m["seq"]))
             if exp is not None and results != exp:
                 chk.violations.append(("ledger results %s for the revision sequence %s; expected %s (changed argument type / argument count / return type must be errors, unchanged runs must pass)" % (results, m["seq"], exp),
